@@ -837,9 +837,10 @@ def oracle_tables(h):
 def emit_hcase(h):
     sser = oracle_tables(h)
     parents = E.lst(["(%s, %s)" % (E.pstr(c["name"]), E.pstr(c["base"])) for c in h.fam if c.get("base")])
-    return ("{| hc_env := %s; hc_parents := %s; hc_sser := %s; hc_oser := []; hc_ofast := []; hc_ops := %s; "
-            "hc_outs := %s; hc_regs := %s |}") % (
-        E.lst(["\n   " + emit_class(c) for c in h.env]), parents, T.emit_otable(sser),
+    env_lit = E.lst(["\n   " + emit_class(c) for c in h.env])
+    return env_lit, ("{| hc_env := @ENV@; hc_parents := %s; hc_sser := %s; hc_oser := []; hc_ofast := []; hc_ops := %s; "
+                     "hc_outs := %s; hc_regs := %s |}") % (
+        parents, T.emit_otable(sser),
         E.lst(["\n   " + emit_op(t) for t in h.trace]),
         E.lst([E.outcome(t[-1]) for t in h.trace]),
         E.lst(["(%s, %s, %s, %s)" % (E.blit(c), E.pstr(n), E.pval(v), E.outcome(o)) for c, n, v, o in h.regs]))
@@ -869,7 +870,7 @@ def report_obs(rep, h, ops, found_in):
     return n_bad
 
 
-def stream_fast_hist(rep, rnd, n, lattice_spec, model_ok, fresh, eval_shards):
+def stream_fast_hist(rep, rnd, n, lattice_spec, model_ok, fresh, eval_bodies):
     cases = []
     for fam, ops in lattice_cases(rnd, fresh, lattice_spec):
         cases.append((fam, ops, "lattice"))
@@ -907,7 +908,17 @@ def stream_fast_hist(rep, rnd, n, lattice_spec, model_ok, fresh, eval_shards):
     if model_ok and items:
         fns = ["h_out_mismatch", "h_reg_mismatch", "h_undecided"]
         try:
-            r = eval_shards(items, "hcase", fns, "c10h", per=100, header=HEADER)
+            # the declarations of a family are shared by many histories: one Definition per distinct family and shard
+            per, bodies = 100, []
+            for s0 in range(0, len(items), per):
+                names, defs, lits = {}, [], []
+                for env_lit, lit in items[s0:s0 + per]:
+                    if env_lit not in names:
+                        names[env_lit] = "fam_%d" % len(names)
+                        defs.append("Definition %s : tenv := %s.\n" % (names[env_lit], env_lit))
+                    lits.append("\n " + lit.replace("@ENV@", names[env_lit]))
+                bodies.append("".join(defs) + "Definition cases : list hcase := %s.\n" % E.lst(lits))
+            r = eval_bodies(bodies, fns, "c10h", per, HEADER)
         except RuntimeError as ex:
             rep.broken("correspondence:fast_hist/coq-eval", str(ex))
             return
